@@ -407,6 +407,15 @@ class Language(object):
             elif token == "_":
                 stack.append(TypeVariable())
             elif token == "*":
+                # The left operand may be a compound type whose parameters
+                # have been parsed but not yet applied, as in `F(A) * B`
+                i = len(stack)
+                while i > 0 and isinstance(stack[i - 1], TypeInstance):
+                    i -= 1
+                if (0 < i < len(stack) and stack[i - 1] is not Product
+                        and isinstance(stack[i - 1],
+                            (TypeOperator, TypeAlias))):
+                    stack[i - 1:] = [stack[i - 1](*stack[i:])]
                 t1 = stack.pop()
                 if not isinstance(t1, TypeInstance):
                     raise ParseError("Product type without left-hand side")
